@@ -1251,6 +1251,88 @@ Proof.
   exists (fun k => (k <? 3)%nat), (mkh2 (mkholder [mklabel false []] 4 [] 0 0 0) sects_init), bld_init. vm_compute. split; [reflexivity | discriminate].
 Qed.
 
+(* ---------------------------------------------------------------- String *)
+
+Lemma align_up_z_ge x a : 0 < a -> x <= align_up_z x a.
+Proof.
+  intros H. unfold align_up_z. pose proof (Z.div_mod (x + a - 1) a ltac:(lia)). pose proof (Z.mod_pos_bound (x + a - 1) a H). nia.
+Qed.
+
+Lemma pow2_ceil_ge x : x <= pow2_ceil x.
+Proof.
+  unfold pow2_ceil. destruct (x <=? 1) eqn:E; [apply Z.leb_le in E; lia|]. apply Z.leb_gt in E.
+  pose proof (Z.log2_spec (x - 1) ltac:(lia)) as [_ H]. replace (Z.succ (Z.log2 (x - 1))) with (Z.log2 (x - 1) + 1) in H by lia. lia.
+Qed.
+
+Lemma str_grow_capacity_ge bs mn : 0 <= mn -> mn <= str_grow_capacity bs mn.
+Proof.
+  intros H. unfold str_grow_capacity, grow_threshold.
+  set (b := if bs <? 128 then 128 else if bs <? 512 then 512 else bs).
+  destruct (b <? mn) eqn:E.
+  - destruct (16777216 <? pow2_ceil mn).
+    + pose proof (Z.mod_pos_bound mn 16777216 ltac:(lia)). lia.
+    + apply pow2_ceil_ge.
+  - apply Z.ltb_ge in E. lia.
+Qed.
+
+Section StrProofs.
+Variable okh : nat -> bool.
+
+Definition str_inv (s : str) : Prop := slen s <= st_cap s /\ (st_large s = false -> st_cap s = sso_capacity).
+Definition sop_wf (op : sop) : Prop := match op with SAppendChars n | SAssignChars n | STruncate n => 0 <= n | _ => True end.
+
+Lemma zchars_length n : Z.of_nat (length (zchars n)) = Z.max n 0.
+Proof. unfold zchars. rewrite repeat_length. lia. Qed.
+
+(* Every String operation under every heap oracle: never "invalid"; kOutOfMemory leaves characters, capacity and storage kind
+   exactly as they were; a success has the oracle-free effect str_spec; size <= capacity is kept; at most one malloc. *)
+Theorem str_step_atomic op s k r s' k' :
+  sop_wf op -> str_inv s -> str_step okh op s k = (r, s', k') ->
+  (k <= k' <= S k)%nat /\ r <> Invalid /\ str_inv s' /\ (r = Oom -> s' = s) /\ (r = Ok -> st_chars s' = str_spec op (st_chars s)).
+Proof.
+  intros W [I I2] E. unfold str_inv, slen in *.
+  destruct op as [d|d|n|n| | |n]; cbn [str_step sop_wf] in *.
+  - destruct (Z.of_nat (length d) =? 0) eqn:Z0.
+    + apply Z.eqb_eq in Z0. assert (d = []) by (destruct d; cbn in Z0; [auto|lia]). subst. inversion E; subst.
+      repeat split; auto; try lia; try discriminate; try (cbn [st_large st_cap]; intros; auto; congruence). intros _. cbn. rewrite app_nil_r. auto.
+    + unfold str_prepare_append, slen in E. destruct (st_cap s <? Z.of_nat (length d) + Z.of_nat (length (st_chars s))) eqn:C.
+      * destruct (okh k); inversion E; subst; clear E; cbn [st_chars st_cap str_spec]; repeat split; auto; try lia; try discriminate; try (cbn [st_large st_cap]; intros; auto; congruence).
+        rewrite app_length. pose proof (str_grow_capacity_ge (Z.of_nat (length d) + 1) (Z.of_nat (length d) + Z.of_nat (length (st_chars s)) + 1) ltac:(lia)). lia.
+      * apply Z.ltb_ge in C. inversion E; subst; clear E; cbn [st_chars st_cap str_spec]; repeat split; auto; try lia; try discriminate; try (cbn [st_large st_cap]; intros; auto; congruence).
+        rewrite app_length. lia.
+  - unfold str_assign_storage in E. destruct (st_large s) eqn:LG.
+    + destruct (Z.of_nat (length d) <=? st_cap s) eqn:C.
+      * apply Z.leb_le in C. inversion E; subst; clear E; cbn [st_chars st_cap str_spec]; repeat split; auto; try lia; try discriminate; try (cbn [st_large st_cap]; intros; auto; congruence).
+      * destruct (okh k); inversion E; subst; clear E; cbn [st_chars st_cap str_spec]; repeat split; auto; try lia; try discriminate; try (cbn [st_large st_cap]; intros; auto; congruence).
+        pose proof (align_up_z_ge (Z.of_nat (length d) + 1) 32 ltac:(lia)). lia.
+    + destruct (Z.of_nat (length d) <=? sso_capacity) eqn:C.
+      * apply Z.leb_le in C. inversion E; subst; clear E; cbn [st_chars st_cap str_spec]; repeat split; auto; try lia; try discriminate; try (cbn [st_large st_cap]; intros; auto; congruence).
+        all: try (rewrite I2 by auto; lia).
+      * destruct (okh k); inversion E; subst; clear E; cbn [st_chars st_cap str_spec]; repeat split; auto; try lia; try discriminate; try (cbn [st_large st_cap]; intros; auto; congruence).
+  - destruct (n <=? 0) eqn:Z0.
+    + apply Z.leb_le in Z0. inversion E; subst. repeat split; auto; try lia; try discriminate; try (cbn [st_large st_cap]; intros; auto; congruence). intros _. cbn. unfold zchars.
+      replace (Z.to_nat n) with 0%nat by lia. cbn. rewrite app_nil_r. auto.
+    + apply Z.leb_gt in Z0. unfold str_prepare_append, slen in E. destruct (st_cap s <? n + Z.of_nat (length (st_chars s))) eqn:C.
+      * destruct (okh k); inversion E; subst; clear E; cbn [st_chars st_cap str_spec]; repeat split; auto; try lia; try discriminate; try (cbn [st_large st_cap]; intros; auto; congruence).
+        rewrite app_length, Nat2Z.inj_add, zchars_length. pose proof (str_grow_capacity_ge (n + 1) (n + Z.of_nat (length (st_chars s)) + 1) ltac:(lia)). lia.
+      * apply Z.ltb_ge in C. inversion E; subst; clear E; cbn [st_chars st_cap str_spec]; repeat split; auto; try lia; try discriminate; try (cbn [st_large st_cap]; intros; auto; congruence).
+        rewrite app_length, Nat2Z.inj_add, zchars_length. lia.
+  - destruct (n <=? 0) eqn:Z0.
+    + apply Z.leb_le in Z0. inversion E; subst. cbn [st_chars st_cap]. repeat split; auto; try lia; try discriminate; try (cbn [st_large st_cap]; intros; auto; congruence).
+      * cbn. lia.
+      * intros _. cbn. unfold zchars. replace (Z.to_nat n) with 0%nat by lia. auto.
+    + apply Z.leb_gt in Z0. unfold str_prepare_assign in E. destruct (st_cap s <? n) eqn:C.
+      * destruct (okh k); inversion E; subst; clear E; cbn [st_chars st_cap str_spec]; repeat split; auto; try lia; try discriminate; try (cbn [st_large st_cap]; intros; auto; congruence).
+        rewrite zchars_length. pose proof (align_up_z_ge (n + 1) 128 ltac:(lia)). lia.
+      * apply Z.ltb_ge in C. inversion E; subst; clear E; cbn [st_chars st_cap str_spec]; repeat split; auto; try lia; try discriminate; try (cbn [st_large st_cap]; intros; auto; congruence).
+        rewrite zchars_length. lia.
+  - inversion E; subst. cbn. repeat split; auto; try lia; try discriminate; try (cbn [st_large st_cap]; intros; auto; congruence).
+  - inversion E; subst. cbn. repeat split; auto; try lia; try discriminate; try (cbn [st_large st_cap]; intros; auto; congruence); try (unfold sso_capacity; lia).
+  - inversion E; subst; clear E. cbn [st_chars st_cap str_spec]. repeat split; auto; try lia; try discriminate; try (cbn [st_large st_cap]; intros; auto; congruence).
+    all: try (destruct (n <? Z.of_nat (length (st_chars s))); [rewrite firstn_length; lia | lia]).
+Qed.
+End StrProofs.
+
 (* ---------------------------------------------------------------- VirtMem views and JitAllocator blocks *)
 Local Close Scope Z_scope.
 
@@ -1328,6 +1410,28 @@ Proof.
 Qed.
 
 End RaProofs.
+
+
+Lemma nodupb_NoDup l : nodupb l = true -> NoDup l.
+Proof.
+  induction l as [|x t IH]; cbn; intros H; [constructor|].
+  apply andb_prop in H. destruct H as [H1 H2]. constructor; auto.
+  intros HI. apply negb_true_iff in H1. assert (existsb (Nat.eqb x) t = true) by (apply existsb_exists; exists x; split; auto; apply Nat.eqb_refl). congruence.
+Qed.
+
+(* the executable validator is sound for the invariant of the home-slot model: a dumped state it accepts satisfies ra_inv *)
+Theorem ra_check_sound s : ra_check s = true -> ra_inv s.
+Proof.
+  unfold ra_check. intros H. apply andb_prop in H. destruct H as [H H3]. apply andb_prop in H. destruct H as [H1 H2].
+  rewrite forallb_forall in H2, H3. split; [apply nodupb_NoDup; auto|]. split.
+  - intros w. split.
+    + intros HH. destruct (lt_dec w (length (ra_home s))) as [L|L].
+      * specialize (H3 w). rewrite in_seq in H3. specialize (H3 ltac:(lia)). rewrite HH in H3. cbn in H3.
+        apply existsb_exists in H3. destruct H3 as [y [Hy E]]. apply Nat.eqb_eq in E. subst. auto.
+      * unfold has_home in HH. rewrite nth_overflow in HH by lia. discriminate.
+    + intros HI. specialize (H2 w HI). apply andb_prop in H2. tauto.
+  - intros w HI. specialize (H2 w HI). apply andb_prop in H2. destruct H2 as [L _]. apply Nat.ltb_lt in L. auto.
+Qed.
 
 (* without the test (the code before f186c27): two failed creations leave a referenced register without a home *)
 Theorem ra_as_mem_unchecked_refuted :
